@@ -1,11 +1,99 @@
 /-
-  miscmodel driver part: Genesis (stub until the model lands).
+  miscmodel driver part: Genesis (C44).
+  `genesis.roundtrip`: the harness sends the typed state of chain A's ibc store before the export; the
+  model answers `importG env (exportG s)` — the typed state the REAL InitGenesis must have produced on
+  the fresh chain — plus whether anything was lost and whether the re-export equals the first export.
 -/
 import IbcVerif.Util.J
+import IbcVerif.Model.Genesis
 open Lean
 namespace IbcVerif.Driver.MiscGenesis
-open IbcVerif.J
+open IbcVerif.J IbcVerif.Genesis
 
-def handle (_f : String) (_j : Json) : Option (Except String Json) := none
+def seqOf (j : Json) : Except String Nat := nat j "seq"
+
+def parseMap {κ : Type} (j : Json) (field : String) (key : Json → Except String κ) : Except String (List (κ × Val)) := do
+  let a ← arr j field
+  a.toList.mapM fun e => do
+    let k ← key e
+    let v ← str e "v"
+    pure (k, v)
+
+def keyId (e : Json) : Except String String := str e "id"
+def keyPC (e : Json) : Except String PortChan := do pure (← str e "port", ← str e "chan")
+def keyPCS (e : Json) : Except String PortChanSeq := do pure (← str e "port", ← str e "chan", ← seqOf e)
+def keyIS (e : Json) : Except String IdSeq := do pure (← str e "id", ← seqOf e)
+def keyCK (e : Json) : Except String ClientKey := do pure (← str e "id", ← str e "sub")
+def keyK (e : Json) : Except String String := str e "k"
+
+def parseState (j : Json) : Except String State := do
+  pure {
+    clientParams := ← str j "clientParams"
+    nextClientSeq := ← str j "nextClientSeq"
+    cstore := ← parseMap j "cstore" keyCK
+    conns := ← parseMap j "conns" keyId
+    connParams := ← str j "connParams"
+    nextConnSeq := ← str j "nextConnSeq"
+    chans := ← parseMap j "chans" keyPC
+    nextRecv := ← parseMap j "nextRecv" keyPC
+    nextAck := ← parseMap j "nextAck" keyPC
+    nextSend := ← parseMap j "nextSend" keyId
+    commits := ← parseMap j "commits" keyPCS
+    receipts := ← parseMap j "receipts" keyPCS
+    acks := ← parseMap j "acks" keyPCS
+    nextChanSeq := ← str j "nextChanSeq"
+    commits2 := ← parseMap j "commits2" keyIS
+    receipts2 := ← parseMap j "receipts2" keyIS
+    acks2 := ← parseMap j "acks2" keyIS
+    async2 := ← parseMap j "async2" keyIS
+    alias := ← parseMap j "alias" keyId
+    other := ← parseMap j "other" keyK }
+
+def fmtMap {κ : Type} (m : List (κ × Val)) (key : κ → List (String × Json)) : Json :=
+  Json.arr (m.map fun e => Json.mkObj (key e.1 ++ [("v", Json.str e.2)])).toArray
+
+def fId (k : String) : List (String × Json) := [("id", Json.str k)]
+def fPC (k : PortChan) : List (String × Json) := [("port", Json.str k.1), ("chan", Json.str k.2)]
+def fPCS (k : PortChanSeq) : List (String × Json) :=
+  [("port", Json.str k.1), ("chan", Json.str k.2.1), ("seq", num k.2.2)]
+def fIS (k : IdSeq) : List (String × Json) := [("id", Json.str k.1), ("seq", num k.2)]
+def fCK (k : ClientKey) : List (String × Json) := [("id", Json.str k.1), ("sub", Json.str k.2)]
+def fK (k : String) : List (String × Json) := [("k", Json.str k)]
+
+def fmtState (s : State) : Json :=
+  Json.mkObj [
+    ("clientParams", Json.str s.clientParams), ("nextClientSeq", Json.str s.nextClientSeq),
+    ("cstore", fmtMap s.cstore fCK), ("conns", fmtMap s.conns fId),
+    ("connParams", Json.str s.connParams), ("nextConnSeq", Json.str s.nextConnSeq),
+    ("chans", fmtMap s.chans fPC), ("nextRecv", fmtMap s.nextRecv fPC), ("nextAck", fmtMap s.nextAck fPC),
+    ("nextSend", fmtMap s.nextSend fId),
+    ("commits", fmtMap s.commits fPCS), ("receipts", fmtMap s.receipts fPCS), ("acks", fmtMap s.acks fPCS),
+    ("nextChanSeq", Json.str s.nextChanSeq),
+    ("commits2", fmtMap s.commits2 fIS), ("receipts2", fmtMap s.receipts2 fIS), ("acks2", fmtMap s.acks2 fIS),
+    ("async2", fmtMap s.async2 fIS), ("alias", fmtMap s.alias fId), ("other", fmtMap s.other fK)]
+
+def handle (f : String) (j : Json) : Option (Except String Json) :=
+  match f with
+  | "genesis.roundtrip" => some do
+      let ej ← j.getObjVal? "env"
+      let cps ← (← arr ej "cpId").toList.mapM fun e => do pure ((← str e "v"), (← str e "cp"))
+      let env : Env := { localhostConn := ← str ej "localhostConn", cpId := cps }
+      let s ← parseState (← j.getObjVal? "state")
+      if !wfB env s then
+        -- the harness state is not a well-formed store (unsorted / missing sentinel / export would panic)
+        pure <| Json.mkObj [("bad", Json.str "state not well-formed")]
+      else
+        let g := exportG s
+        match initGenesis env g with
+        | none =>
+          -- clientv2 genesis validation rejects the export: InitGenesis panics
+          pure <| Json.mkObj [("panic", Json.str "clientv2-self-counterparty")]
+        | some s' =>
+        let lossless := decide (s' = s)
+        pure <| Json.mkObj [
+          ("r", Json.str (if lossless then "lossless" else "lossy")),
+          ("state", fmtState s'),
+          ("reexport_equal", Json.bool (decide (exportG s' = g)))]
+  | _ => none
 
 end IbcVerif.Driver.MiscGenesis
